@@ -186,6 +186,11 @@ def _t_class_comp(c):
                     bound.add((x.asname or x.name).split(".")[0])
             if isinstance(s, (ast.FunctionDef, ast.ClassDef)):
                 bound.add(s.name)
+            # a name declared global/nonlocal in the class body: the declaration does not extend to
+            # the nested expression scopes, which the rewriter resolves through the class's symbols
+            for x in ast.walk(s) if not isinstance(s, (ast.FunctionDef, ast.ClassDef)) else []:
+                if isinstance(x, (ast.Global, ast.Nonlocal)):
+                    bound.update(x.names)
         if not bound:
             continue
         for s in n.body:
@@ -329,6 +334,29 @@ def _t_fstring_pre312(c):
     if c.cfg is not None and c.cfg[0] != "oneliner":
         return False
     return fstring_hard(c.tree)
+
+
+def cpython_inlined_comprehension_cell_bug(tree):
+    """Reference-model defect (CPython 3.12.1 and 3.13.0, measured): after an inlined comprehension whose
+    target N is captured by a lambda inside the comprehension, a *free* variable N of the enclosing function
+    reads the comprehension's last value. Programs of that shape are out of the domain on hosts >= 3.12:
+    comprehension target N + a lambda inside that comprehension mentioning N + N mentioned elsewhere."""
+    names_outside = {}
+    comps = [n for n in ast.walk(tree) if isinstance(n, (ast.ListComp, ast.SetComp, ast.DictComp))]
+    if not comps:
+        return False
+    all_names = [n.id for n in ast.walk(tree) if isinstance(n, ast.Name)]
+    for c in comps:
+        targets = set()
+        for g in c.generators:
+            targets.update(x.id for x in ast.walk(g.target) if isinstance(x, ast.Name))
+        inside = [x.id for x in ast.walk(c) if isinstance(x, ast.Name)]
+        for t in targets:
+            captured = any(isinstance(l, ast.Lambda) and any(isinstance(y, ast.Name) and y.id == t for y in ast.walk(l))
+                           for l in ast.walk(c))
+            if captured and all_names.count(t) > inside.count(t):
+                return True
+    return False
 
 
 @trigger("always")
